@@ -1497,6 +1497,18 @@ std::string vh::execute(toks_t& toks, std::string&)
         default: throw bad_op("rank");
         }
     }
+    if (op == "range")
+    {
+        // range.h: make_range(b, e) observed through begin() / end() / size() / valid(n); any signed values (no assert involved)
+        const auto b = toks.i64();
+        const auto e = toks.i64();
+        const auto n = toks.i64();
+        const auto r = nano::make_range(static_cast<tensor_size_t>(b), static_cast<tensor_size_t>(e));
+        out_t      out;
+        out << "ok" << static_cast<long long>(r.begin()) << static_cast<long long>(r.end()) << static_cast<long long>(r.size())
+            << (r.valid(static_cast<tensor_size_t>(n)) ? 1 : 0);
+        return out.str();
+    }
     if (op == "arange")
     {
         const auto lo = toks.i64();
